@@ -39,6 +39,8 @@ type limitMon struct {
 	written             int
 	accepted            int
 	bursts              int
+	offerAt             []int64 // time each element was offered to the discipline (producer side)
+	prompt              bool
 }
 
 func (m *limitMon) Hash() uint64 {
@@ -79,6 +81,22 @@ func (m *limitMon) OnEvent(w *vrt.World, ev *vrt.Event) {
 			v := ev.Val.(int)
 			if v != m.next {
 				m.f.fail("C12", "output element %d is %d: the output is not the input sequence in order (loss, duplication or reordering)", m.next, v)
+			}
+		}
+		if m.prompt && m.next < len(m.offerAt) {
+			// C12, no extra throttling: with a consumer that is always ready an element
+			// is delayed only by its own availability, by the element before it, or by the
+			// rate constraint relative to the element Quantity places before it
+			k := m.next
+			bound := m.offerAt[k]
+			if k > 0 && m.sentAt[k-1] > bound {
+				bound = m.sentAt[k-1]
+			}
+			if int64(k) >= m.Q && m.sentAt[int64(k)-m.Q]+m.I > bound {
+				bound = m.sentAt[int64(k)-m.Q] + m.I
+			}
+			if now > bound {
+				m.f.fail("C12", "element %d left the discipline at %d although it was offered at %d, its predecessor left at %d and the rate constraint (element %d places earlier + Interval %d) allowed it at %d: throttled below the configured rate", k, now, m.offerAt[k], bound, m.Q, m.I, bound)
 			}
 		}
 		m.next++
@@ -130,6 +148,7 @@ func newLimit(c Cfg, w *vrt.World) *explore.Instance {
 	}
 	m := &limitMon{cfg: c, Q: q, I: c.I}
 	m.f = failer{c, w}
+	m.prompt = c.Late == 0 && (len(c.Delays) == 0 || (len(c.Delays) == 1 && c.Delays[0] == 0))
 	w.Monitors = append(w.Monitors, m)
 	total := 0
 	if len(c.N) > 0 {
@@ -160,6 +179,7 @@ func newLimit(c Cfg, w *vrt.World) *explore.Instance {
 			vrt.CloseNow(in)
 			m.written = total
 			m.inClosed = true
+			m.offerAt = make([]int64, total)
 		}
 		d, err := limit2.New(limit2.Opts[int]{Input: in, Limit: limit2.Rate{Interval: time.Duration(c.I), Quantity: c.Q}})
 		if err != nil {
@@ -176,6 +196,7 @@ func newLimit(c Cfg, w *vrt.World) *explore.Instance {
 						vtime.Sleep(time.Duration(p))
 					}
 					m.written = i + 1
+					m.offerAt = append(m.offerAt, w.Clock)
 					vrt.Send(in, i)
 				}
 				vrt.Mark(uint64(total) + 7000)
